@@ -313,6 +313,47 @@ theorem c12_reset_restarts (b : OutBuf) (pre post : List Op) (h : (b.runStop pre
     rw [c12_reset_initial, runStop_limit]
   simp [this]
 
+/-- **Every exit of `Request` leaves no registration** (the NATS `Request` shape: size check
+between `Register` and `PublishRequest`): whatever the size, whether or not a reply arrives,
+the registry after the call is the registry before it. -/
+theorem c12_no_registration_left (L : Nat) (reg : List Nat) (opid size : Nat) (replied : Bool) :
+    (regRequest L reg opid size replied).1 = reg ∧ (regOneway L reg size).1 = reg := by
+  constructor
+  · unfold regRequest
+    split
+    · rfl
+    · split
+      · rfl
+      · split <;> simp
+  · unfold regOneway
+    split
+    · rfl
+    · split <;> rfl
+
+/-- **Follow-ups keep working**: in any sequence of requests and oneways on one transport,
+with any reuse of FContexts (same op id again, a clone, a fresh one), after any number of
+oversize rejections: every step leaves the registry empty, an oversize message is rejected
+with REQUEST_TOO_LARGE and a message within the limit is never rejected. -/
+theorem c12_followups_work (L : Nat) (steps : List SeqStep) (hs : ∀ st ∈ steps, st.size ≠ 4) :
+    runSeq L [] steps = steps.map (fun st =>
+      (if 0 < L ∧ L < st.size then some CallErr.requestTooLarge else none, 0)) := by
+  induction steps with
+  | nil => rfl
+  | cons st t ih =>
+    have h4 : st.size ≠ 4 := hs st (by simp)
+    have hreg : (if st.oneway then regOneway L [] st.size else regRequest L [] st.opid st.size true).1 = [] := by
+      split
+      · exact (c12_no_registration_left L [] st.opid st.size true).2
+      · exact (c12_no_registration_left L [] st.opid st.size true).1
+    have hres : (if st.oneway then regOneway L [] st.size else regRequest L [] st.opid st.size true).2 =
+        (if 0 < L ∧ L < st.size then some CallErr.requestTooLarge else none) := by
+      split
+      · unfold regOneway; rw [if_neg h4]; split <;> rfl
+      · unfold regRequest; rw [if_neg h4]; simp only [List.not_mem_nil, if_false]; split <;> rfl
+    simp only [runSeq, List.map_cons]
+    rw [hreg, hres, ih (fun x hx => hs x (by simp [hx]))]
+    simp
+
 /-- Known finding `json-sticky-writer` (KNOWN_FINDINGS.txt), on a concrete witness: the
 hypothesis of `c12_response_reported` that the error reply's writes reach the buffer fails
 for a buffered encoder whose `Flush` failed (TJSONProtocol keeps the error in its
